@@ -431,6 +431,15 @@ func c11Container(w *World, r *Recorder) {
 							ok, why = false, "hands the container's live storage to the converter (a failing conversion overwrites stored elements)"
 						}
 					}
+					if baseName(fn) == "Replace" && v != res0 && strings.HasPrefix(v, "makeslice(len("+res0+"))") {
+						// an owned copy of the conversion: a fresh slice of its length,
+						// filled by copy(fresh, conversion) on this path
+						for _, ev := range p.St.events {
+							if ev.Kind == "call" && ev.Callee == "builtin copy" && len(ev.Args) == 2 && ev.Args[0].name() == v && ev.Args[1].name() == res0 {
+								v = res0
+							}
+						}
+					}
 					if baseName(fn) == "Replace" && v != res0 {
 						ok, why = false, "Replace stores "+v+", not the validated conversion of its argument (must assign, not append)"
 					}
